@@ -310,7 +310,7 @@ def run(ctx):
         for c in chunks(range(128), 16):
             tasks.append(("s", (tc, list(c))))
     tasks.append(("q", 4 if ctx.thorough else 3))
-    ctx.pmap(w_any, tasks)
+    ctx.pmap(w_any, tasks, ambient=True)
     ctx.cov["exhaustive"] = bool(ctx.thorough)
     ctx.samples.append({"tc19": F.es(me19(1, 0, 10, 1, 20, 1, 0, 30, 0, 9)), "fields": "st=1 ew=+9 ns=-19 vr=+1856 baro diff=+200"})
 
